@@ -352,7 +352,34 @@ void vf_case(Ctx& ctx, uint64_t i) {
   int szi = (int)((i / 64) % 7);
   double S = kSizes[szi];
 
-  offs::SwhScene sc = offs::simple_with_holes(r, S, g_sc);
+  offs::SwhScene sc;
+  double rho = 0;   // radius of curvature of the finely sampled arcs (0: ordinary scene)
+  if (szi >= 3 && szi <= 5 && (i / 448) % 27 == 4) {
+    // finely sampled arcs: per-vertex turns of 0.03-0.055 degrees (thousands of vertices per full turn). Concave joins of
+    // such arcs are what removes over-shrunk parts of the raw offset curve when |delta| exceeds the radius of curvature.
+    rho = S / r.real(6.0, 12.0);
+    const double phi = r.real(18.0, 40.0) * offs::kPiL / 180.0, step = r.real(0.03, 0.055) * offs::kPiL / 180.0;
+    const int m = std::max(8, (int)(phi / step));
+    auto lens = [&](double cx, double cy, double rot, bool ccw) {   // two arcs of radius rho subtending phi, meeting in two tips
+      Path64 p; const double d = rho * cos(phi / 2);               // distance from each circle centre to the chord
+      for (int side = 0; side < 2; ++side) for (int q = 0; q < m; ++q) {
+        double a = -phi / 2 + phi * q / m; double x = rho * sin(a), y = rho * cos(a) - d; if (side) { x = -x; y = -y; }
+        double X = x * cos(rot) - y * sin(rot), Y = x * sin(rot) + y * cos(rot);
+        p.push_back(Point64((int64_t)llround(cx + X), (int64_t)llround(cy + Y))); }
+      Path64 u; for (auto& pt : p) if (u.empty() || !(u.back() == pt)) u.push_back(pt);
+      while (u.size() > 1 && u.back() == u.front()) u.pop_back();
+      if ((area2(u) > 0) != ccw) std::reverse(u.begin(), u.end());
+      return u; };
+    int kind = r.irange(0, 2);
+    Paths64 P0;
+    if (kind == 0) { P0.push_back(gen::box((int64_t)-S, (int64_t)-S, (int64_t)S, (int64_t)S, true)); P0.push_back(lens(r.real(-S / 4, S / 4), r.real(-S / 4, S / 4), r.real(0, 3.1), false)); sc.outers = 1; sc.holes = 1; }
+    else if (kind == 1) { P0.push_back(lens(0, 0, r.real(0, 3.1), true)); sc.outers = 1; sc.holes = 0; }
+    else { P0.push_back(gen::box((int64_t)-S, (int64_t)-S, (int64_t)S, (int64_t)S, true)); P0.push_back(lens(-S / 3, r.real(-S / 5, S / 5), r.real(0, 3.1), false)); P0.push_back(lens(S / 3, r.real(-S / 5, S / 5), r.real(0, 3.1), false)); sc.outers = 1; sc.holes = 2; }
+    if (offs::swh_verify(P0) != 0) { ctx.count("fine_arc_scene_rejected_by_premise_verifier"); return; }
+    sc.paths = P0; sc.ok = true; ctx.count("fine_arc_scenes");
+  } else {
+    sc = offs::simple_with_holes(r, S, g_sc);
+  }
   if (!sc.ok) { ctx.count("generator_gave_up"); return; }
   Paths64 P = sc.paths;
   // rigid integer motions / relabelling: keep every verified premise
@@ -376,6 +403,7 @@ void vf_case(Ctx& ctx, uint64_t i) {
   }
   else if (u < 0.75) { ad = exp(r.real(log(1.0), log(0.6 * S))); dclass = "log_uniform"; }
   else { ad = r.real(0.02, 0.6) * S; dclass = "uniform_to_0.6_size"; }
+  if (rho > 0) { ad = rho * r.pick(std::vector<double>{ 0.02, 0.3, 0.9, 1.1, 1.5, 2.5 }); dclass = "relative_to_radius_of_curvature"; }
   if (ad > 0.6 * S) ad = 0.6 * S;
   if (r.chance(0.3) && ad >= 1) ad = floor(ad);
   double delta = shrink ? -ad : ad;
